@@ -938,6 +938,10 @@ def _f_div(a, b):
             # |x| <= |y| => |x/y| <= 1 exactly => |r| <= 1 ;  |x| >= |y| => |r| >= 1   (monotone rounding, 1 representable)
             z3.Implies(z3.And(fin, _absle(x, y)), z3.fpLEQ(z3.fpAbs(r), ONE)),
             z3.Implies(z3.And(fin, _absle(y, x)), z3.fpGEQ(z3.fpAbs(r), ONE)),
+            # strict versions: |x| > |y| => x/y >= 1 + ulp(y)/|y| > 1 + 2^-53 => rounds to at least 1 + 2^-52;  |x| < |y| => x/y <= 1 - 2^-53
+            # (a double) => |r| < 1.  (the quotient of two distinct doubles never rounds to 1)
+            z3.Implies(z3.And(fin, z3.Not(_absle(x, y))), z3.fpGT(z3.fpAbs(r), ONE)),
+            z3.Implies(z3.And(fin, z3.Not(_absle(y, x)), z3.Not(xz)), z3.fpLT(z3.fpAbs(r), ONE)),
             z3.Implies(z3.And(_midrange(x), _midrange(y)), z3.And(_fin(r), z3.Not(z3.fpIsZero(r)))),
         ]
 
@@ -1000,7 +1004,14 @@ def _f_unary_uf(name, a):
             if name == "cos":
                 out += [z3.Implies(z3.fpIsZero(x), z3.fpEQ(r, ONE))]
         elif name == "log":
-            out += [z3.Implies(z3.fpLT(x, Z), z3.fpIsNaN(r)), z3.Implies(z3.fpEQ(x, ONE), z3.fpIsZero(r))]
+            out += [z3.Implies(z3.fpLT(x, Z), z3.fpIsNaN(r)), z3.Implies(z3.fpEQ(x, ONE), z3.fpIsZero(r)),
+                    # contract of a sane libm on doubles: log(0) = -inf, log(+inf) = +inf, and for finite x > 0 the result is finite,
+                    # at most 745 in magnitude (log(5e-324) = -744.4, log(1.8e308) = 709.8) and zero only at x = 1 (|log x| >= 1.1e-16 otherwise)
+                    z3.Implies(z3.fpIsZero(x), z3.And(z3.fpIsInf(r), z3.fpIsNegative(r))),
+                    z3.Implies(z3.And(z3.fpIsInf(x), z3.fpIsPositive(x)), z3.And(z3.fpIsInf(r), z3.fpIsPositive(r))),
+                    z3.Implies(z3.And(_fin(x), z3.fpGT(x, Z)), z3.And(_fin(r), z3.fpLEQ(z3.fpAbs(r), fv(745.0)),
+                                                                      z3.Or(z3.fpEQ(x, ONE), z3.fpGEQ(z3.fpAbs(r), fv(2.0 ** -54))))),
+                    z3.Implies(z3.And(_fin(x), z3.fpGT(x, ONE)), z3.fpGT(r, Z)), z3.Implies(z3.And(z3.fpGT(x, Z), z3.fpLT(x, ONE)), z3.fpLT(r, Z))]
         return out
 
     return FFloat(_f_relaxed("uf_" + name, (x,), ax))
